@@ -303,8 +303,12 @@ def apply_variant(src_dir, dst_dir, v):
     return None
 
 
+def _key(o):
+    return (o["rule"], o["function"], o["construct"])
+
+
 def _run_one(args):
-    prop, v, src = args
+    prop, v, src, base = args
     name, props, kind, module, func, old, new, expect = v
     tmp = tempfile.mkdtemp(prefix="eon_selftest_")
     try:
@@ -330,6 +334,7 @@ def _run_one(args):
             if hit:
                 return (name, "ok", "%s %s :: %s" % (hit[0]["rule"], hit[0]["function"], (hit[0]["detail"] or hit[0]["construct"])[:140]))
             return (name, "fail", "breaking variant not reported by %s (failed rules: %s)" % (expect, sorted({o["rule"] for o in fails})))
+        fails = [o for o in fails if _key(o) not in base]      # what /repo itself already fails is not the variant's doing
         if fails:
             return (name, "fail", "benign variant reported: %s" % ["%s %s %s" % (o["rule"], o["function"], o["construct"][:80]) for o in fails[:3]])
         return (name, "ok", "silent")
@@ -372,6 +377,54 @@ def _run_seed(args):
         shutil.rmtree(tmp, ignore_errors=True)
 
 
+BENIGN = os.path.join(os.path.dirname(os.path.dirname(os.path.abspath(__file__))), "benign")
+
+
+def _run_benign(args):
+    """A behaviour-preserving refactoring written by an independent sub-agent (recorded as `expected: silent`) applied to
+    a scratch copy of /repo's current source must not make this property's check report anything new."""
+    prop, bdir, src, base = args
+    import subprocess
+    name = "refactoring:" + os.path.basename(bdir)
+    tmp = tempfile.mkdtemp(prefix="eon_selftest_")
+    try:
+        os.makedirs(os.path.join(tmp, "EoN"))
+        for m in MODULES:
+            shutil.copy(os.path.join(src, "EoN", m + ".py"), os.path.join(tmp, "EoN", m + ".py"))
+        r = subprocess.run(["patch", "-p1", "-F3", "-s", "--no-backup-if-mismatch", "-d", tmp, "-i", os.path.join(bdir, "patch.diff")],
+                           capture_output=True, text=True)
+        if r.returncode != 0:
+            return (name, "stale", "patch no longer applies to /repo's current source")
+        from .core import Repo, AnalysisError
+        from .report import Report
+        from . import props as P
+        try:
+            rep = Report(prop, "thorough", 0)
+            P.PROPS[prop](Repo(tmp), rep)
+            fails = [o for o in rep.failures() if _key(o) not in base]
+        except AnalysisError as e:
+            return (name, "fail", "refactoring made the analysis fail: %s" % str(e)[:120])
+        if fails:
+            return (name, "fail", "behaviour-preserving refactoring reported: %s" % ["%s %s %s" % (o["rule"], o["function"], o["construct"][:80]) for o in fails[:3]])
+        return (name, "ok", "silent")
+    finally:
+        shutil.rmtree(tmp, ignore_errors=True)
+
+
+def _benign_corpus():
+    import glob
+    import json
+    out = []
+    for mj in sorted(glob.glob(os.path.join(BENIGN, "*", "meta.json"))):
+        try:
+            m = json.load(open(mj))
+        except Exception:
+            continue
+        if m.get("expected") == "silent":
+            out.append(os.path.dirname(mj))
+    return out
+
+
 def _seeds_for(prop):
     import glob
     import json
@@ -386,12 +439,15 @@ def _seeds_for(prop):
     return out
 
 
-def run_for_property(prop, repo_root, seed=0, jobs=None):
-    todo = [(prop, v, repo_root) for v in V if prop in v[1]]
+def run_for_property(prop, repo_root, seed=0, jobs=None, base=frozenset()):
+    """`base`: keys (rule, function, construct) of what the check reports on repo_root itself."""
+    base = frozenset(base)
+    todo = [(prop, v, repo_root, base) for v in V if prop in v[1]]
     seeds = [(prop, d, repo_root) for d in _seeds_for(prop)]
-    jobs = jobs or min(16, max(1, len(todo) + len(seeds)))
+    refac = [(prop, d, repo_root, base) for d in _benign_corpus()]
+    jobs = jobs or min(16, max(1, len(todo) + len(seeds) + len(refac)))
     out = {"total": len(todo), "ok": 0, "stale": 0, "failed": [], "variants": []}
-    if not todo and not seeds:
+    if not todo and not seeds and not refac:
         return out
     with ProcessPoolExecutor(jobs) as ex:
         sres = list(ex.map(_run_seed, seeds)) if seeds else []
@@ -400,6 +456,14 @@ def run_for_property(prop, repo_root, seed=0, jobs=None):
         out["seeded_stale"] = sum(1 for x in sres if x[1] == "stale")
         out["seeded"] = [{"seed": n, "status": st, "detail": msg} for n, st, msg in sres]
         for n, st, msg in sres:
+            if st == "fail":
+                out["failed"].append("%s: %s" % (n, msg))
+        bres = list(ex.map(_run_benign, refac)) if refac else []
+        out["refactorings_total"] = len(refac)
+        out["refactorings_silent"] = sum(1 for x in bres if x[1] == "ok")
+        out["refactorings_stale"] = sum(1 for x in bres if x[1] == "stale")
+        out["refactorings"] = [{"refactoring": n, "status": st, "detail": msg} for n, st, msg in bres if st != "ok"]
+        for n, st, msg in bres:
             if st == "fail":
                 out["failed"].append("%s: %s" % (n, msg))
         for name, status, msg in ex.map(_run_one, todo):
